@@ -32,6 +32,9 @@ def conc(pf):
         return pt.py_inst(c, dict(pf[2])) if pf[2] else c
     if k == 'axiom':
         return pf[1]
+    if k == 'rawinst':
+        c = conc(pf[1])
+        return pt.py_inst(c, dict(pf[2])) if pf[2] else c
     raise ValueError(k)
 
 
@@ -47,7 +50,22 @@ def pf_to_s(pf):
         return '(dyninst %s (%s))' % (pf_to_s(pf[1]), ' '.join(f'({a} {sx.pat_to_s(b)})' for a, b in pf[2]))
     if k == 'axiom':
         return f'(axiom {sx.pat_to_s(pf[1])})'
+    if k == 'rawinst':
+        return '(rawinst %s (%s))' % (pf_to_s(pf[1]), ' '.join(f'({a} {sx.pat_to_s(b)})' for a, b in pf[2]))
     raise ValueError(k)
+
+
+def with_raw_instantiate(rng, pf):
+    """the same proof with some sub-proofs passed through the interpreter's own `instantiate` with an EMPTY map (a call the
+    stateful interpreters accept; ProofExp.dynamic_inst never makes it).  Only understood by the real code's endpoint."""
+    k = pf[0]
+    if k in ('mp',):
+        pf = (k, with_raw_instantiate(rng, pf[1]), with_raw_instantiate(rng, pf[2]))
+    elif k in ('gen', 'dyninst'):
+        pf = (k, with_raw_instantiate(rng, pf[1])) + tuple(pf[2:])
+    if rng.random() < 0.3:
+        return ('rawinst', pf, ())
+    return pf
 
 
 def wf_npat(rng, depth, **kw):
